@@ -800,6 +800,8 @@ type pollCase struct {
 	Seed    uint64 `json:"seed"`
 	// DelayUs: the device takes this long per reply, so that callers queue
 	DelayUs int `json:"delay_us"`
+	// Unit: the unit id everybody talks to (0 and 255 are legal; this device answers every unit id)
+	Unit uint8 `json:"unit"`
 }
 
 func runPolls(c pollCase) harness.Result {
@@ -828,7 +830,7 @@ func runPolls(c pollCase) harness.Result {
 		}
 		do = cl.Do
 	}
-	const unit, addr = 7, 300
+	unit, addr := c.Unit, uint16(300)
 	// the register starts at 0
 	if q, err := cat.NewRequest(f, spec.Req{FC: 6, Unit: unit, Tx: 1, Addr: addr, Value: 0}); err != nil {
 		return harness.Fail("harness: %v", err)
@@ -927,7 +929,7 @@ var chkPolls = harness.Define("identical-polls-while-writing",
 	func(t *rapid.T) pollCase {
 		return pollCase{Kind: rapid.SampledFrom([]string{"tcp", "rtu-net", "serial", "serial-flush"}).Draw(t, "kind"), Readers: rapid.IntRange(2, 6).Draw(t, "readers"),
 			Polls: rapid.IntRange(3, 12).Draw(t, "polls"), Writes: rapid.IntRange(2, 10).Draw(t, "writes"), Seed: rapid.Uint64().Draw(t, "seed"),
-			DelayUs: rapid.SampledFrom([]int{0, 100, 500}).Draw(t, "delay_us")}
+			DelayUs: rapid.SampledFrom([]int{0, 100, 500}).Draw(t, "delay_us"), Unit: rapid.SampledFrom([]uint8{7, 0, 255, 1}).Draw(t, "unit")}
 	}, runPolls)
 
 func TestIdenticalPolls(t *testing.T) { chkPolls.Rapid(t, harness.Pick(12, 300)) }
